@@ -270,9 +270,8 @@ def handle (st : St) (seq : String) (f : List String) : St × List String :=
     match parseProj rest with
     | none => (st, [s!"BAD\t{seq}\tcannot parse state"])
     | some p =>
-      -- on a settlement line the bidders' coins, the penalty and the burn are C10's subject: balances and supply are adopted
-      let m0 : State := if isSettle then { st.s with bal := overlay p.bal st.s.bal,
-                                                     supply := (p.toState st.s).supply } else st.s
+      -- on a settlement line the bidders' coins and the penalty are C10's subject: balances are adopted (the burn is modelled)
+      let m0 : State := if isSettle then { st.s with bal := overlay p.bal st.s.bal } else st.s
       let diffs := (compare st.cfgL m0 p).map fun d => s!"DIFF\t{seq}\tafter [{st.lastMsg}] {d}"
       let r := p.toState m0
       let perMsg := match st.prev, st.lastOk with
